@@ -472,7 +472,7 @@ func TestVerifC05_verify25519(t *testing.T) {
 	r := verifmc.Start(t, "C05", "verify25519")
 	defer r.Finish()
 	r.Rule("per variant and base (seed, message, context): honest signature; S in {0,1,S+-1,L-1,L,L+1,S+jL (j<=16, while it fits),2^252,2^253-1,2^253,2^253+S,S|2^k (k=253..255),all-ones}; " +
-		"A = R = identity with S = jL (j in {0,1,2,3,4,5,8,15}); A and R: all 8 small-order points, every y in [p,2^255) x sign bit (38 strings), forged signatures over small-order and mixed-order keys and R with torsion, " +
+		"A = identity, R = [S]B for the 12 legal boundary values S in {1,2,2^64-1,2^64,2^128,2^(n-2),2^(n-1)-1,2^(n-1),2^(n-1)+1,(L-1)/2,L-2,L-1} (must-accept; for Ed25519 four of them lie in the sliver [2^252,L)); A = R = identity with S = jL (j in {0,1,2,3,4,5,8,15}); A and R: all 8 small-order points, every y in [p,2^255) x sign bit (38 strings), forged signatures over small-order and mixed-order keys and R with torsion, " +
 		"non-canonical strings denoting small-order points (y=p, y=p+1, x=0 with sign bit) carrying a signature valid for the denoted point; wrong lengths; altered message and context; contexts of 256/257/511/512 bytes signed with a wrapped length octet; " +
 		"every single-bit flip of A, R and S (base b0 in the quick tier, all bases in the thorough tier); every variant's honest signature offered to the other variants; " +
 		"each case judged must-accept / must-reject / either by ref/eddsa and given to every verification route; distinct = distinct (variant, key, message, signature, context)")
